@@ -8,6 +8,7 @@ import numpy as np
 import torch
 
 from core import Ctx, Violation, err_name, line, ok_tensor, tensor_groups
+from props.c10_prims import _layout
 
 PROP = "C10"
 EXTRA_LEAN_MODULES = ["DirectVerif.Lemmas.TensorLiftC10",   # n-D corollaries (lifting laws of alongAxis)
@@ -81,8 +82,8 @@ def correspondence(ctx: Ctx):
     # ---- center_crop
     n_cc = ctx.budget(150, 2500)
     for _ in range(n_cc):
-        rank = rng.choice([2, 3, 4])
-        shape = [rng.choice([1, 2, 3]) for _ in range(rank - 2)] + [rng.choice(sizes), rng.choice(sizes)]
+        rank = rng.choice([2, 3, 4, 4, 5, 6])
+        shape = [rng.choice([1, 2, 3] if rank <= 4 else [1, 2]) for _ in range(rank - 2)] + [rng.choice(sizes), rng.choice(sizes)]
         x = _arange(shape)
         if rng.random() < 0.15:
             s = [rng.choice([0, shape[-2] + 1, shape[-2]]), rng.choice([shape[-1] + 2, 0, 1])]
@@ -90,10 +91,13 @@ def correspondence(ctx: Ctx):
             s = [rng.randint(1, shape[-2]), rng.randint(1, shape[-1])]
         sh, d = tensor_groups(x)
         odd = (shape[-2] - s[0]) % 2 == 1 or (shape[-1] - s[1]) % 2 == 1
-        xh = _half(x)
+        lay = rng.choice(["contiguous", "contiguous", "transposed", "strided", "sliced", "permuted"])
+        xh = _layout(_half(x), lay)          # same values, another memory layout
+        sform = rng.choice([tuple, list, torch.Size])(s)
         yield {"line": line("center_crop", sh, d, s),
-               "impl": _impl(lambda x=xh, s=s: T.center_crop(x, s), dtype=torch.float32, scale=2),
-               "nontrivial": max(shape) >= 2 and odd, "bucket": "center_crop/" + ("odd" if odd else "even")}
+               "impl": _impl(lambda x=xh, s=sform: T.center_crop(x, s), dtype=torch.float32, scale=2),
+               "nontrivial": max(shape) >= 2 and odd,
+               "bucket": "center_crop/" + ("odd" if odd else "even") + ("" if lay == "contiguous" else "/noncontiguous")}
     # ---- crop_to_bbox
     n_bb = ctx.budget(200, 4000)
     for _ in range(n_bb):
@@ -132,21 +136,40 @@ def correspondence(ctx: Ctx):
     # ---- pad_tensor
     for _ in range(ctx.budget(150, 2500)):
         k = rng.choice([2, 2, 3])
-        rank = rng.choice([k, k + 1, k + 2]) if k == 2 else rng.choice([3, 4])
-        shape = [rng.choice([1, 2]) for _ in range(rank - k)] + [rng.choice(sizes[:6]) for _ in range(k)]
+        rank = rng.choice([k, k + 1, k + 2, k + 3, k + 4]) if k == 2 else rng.choice([3, 4, 5, 6])
+        shape = [rng.choice([1, 2]) for _ in range(rank - k)] + [rng.choice(sizes[:6] if rank <= 4 else sizes[:4]) for _ in range(k)]
         x = _arange(shape)
         target = [n + rng.choice([-1, 0, 0, 1, 2, 3, 4, 5]) for n in shape[-k:]]
         target = [max(t, 1) for t in target]
         if rng.random() < 0.05:
             target = target[:1]
-        fill = rng.choice([0, 0, 3])
+        fill = rng.choice([0, 0, 3, -2, 2.5])        # 2 * fill stays integral
         odd = any((t - n) % 2 == 1 and t > n for t, n in zip(target, shape[-len(target):]))
         sh, d = tensor_groups(x)
         dt = rng.choice([torch.float32, torch.float32, torch.float64])
-        xh = _half(x).to(dt)
+        xh = _layout(_half(x).to(dt), rng.choice(["contiguous", "contiguous", "transposed", "sliced"]))
+        tform = rng.choice([tuple, list, torch.Size, np.asarray])(target)
         yield {"line": line("pad", sh, d, target, [2 * fill]),
-               "impl": _impl(lambda x=xh, t=tuple(target), f=fill: T.pad_tensor(x, t, value=f), dtype=dt, scale=2),
-               "nontrivial": odd, "bucket": f"pad{k}d/" + ("odd" if odd else "even")}
+               "impl": _impl(lambda x=xh, t=tform, f=fill: T.pad_tensor(x, t, value=f), dtype=dt, scale=2),
+               "nontrivial": odd, "bucket": f"pad{k}d/" + ("odd" if odd else "even") + (f"/rank{rank}" if rank > 4 else "")
+               + ("/value" if fill else "")}
+    # ---- crop_to_largest: every item of the list is one `largest` line (bbox start = -(max - n) // 2 per axis)
+    from direct.data.bbox import crop_to_largest
+    for _ in range(ctx.budget(25, 400)):
+        rank = rng.choice([1, 2, 2, 3])
+        shapes = [[rng.choice(sizes[:6]) for _ in range(rank)] for _ in range(rng.randint(1, 4))]
+        mx = [max(s[j] for s in shapes) for j in range(rank)]
+        fill = rng.choice([0, 0, 7])
+        use_np = rng.random() < 0.4
+        items = [_half(_arange(s)) + 50 * j for j, s in enumerate(shapes)]
+        data = [t.numpy() for t in items] if use_np else items
+        for j, (t, shp) in enumerate(zip(items, shapes)):
+            sh, d = tensor_groups(t * 2)
+            odd = any((m - n) % 2 == 1 for m, n in zip(mx, shp))
+            yield {"line": line("largest", sh, d, mx, [2 * fill]),
+                   "impl": _impl(lambda data=data, j=j, f=fill: torch.as_tensor(crop_to_largest(data, pad_value=f)[j]),
+                                 dtype=torch.float32, scale=2),
+                   "nontrivial": odd, "bucket": "crop_to_largest/" + ("numpy" if use_np else "torch") + ("/odd" if odd else "/even")}
     # ---- complex_center_crop (bbox building + crop)
     for _ in range(ctx.budget(100, 1500)):
         rank = rng.choice([3, 4, 5])
